@@ -59,6 +59,23 @@ theorem decoration_invisible {P : Bytes → Bool} {cfg : Cfg} {dv : LineDev} (hf
   obtain ⟨rp, vp, g1, g2, g3, _, _⟩ := session_exact hf stripPrompt inputs hg wp hp hhp
   exact ⟨rd, rp, vd, vp, _, h1, g1, by rw [h2, g2], by rw [h3, g3, hwr]⟩
 
+/-- **C02, sessions mixing `get_prompt` and commands over a decorating device**: every operation returns what it
+    returns over the undecorated device (`expectedOp`: the command's own text, the device's prompt), for every
+    decoration and every segmentation -/
+theorem decorated_mixed_session_exact {P : Bytes → Bool} {cfg : Cfg} {dv : LineDev} (hf : Fits P cfg dv)
+    (D : Nat → Bytes → Bytes) (hD : Decorates D)
+    (hfirst : ∀ x L, (splitNL x).find? P = some L →
+      ∃ m, cfg.prompt.first x = some m ∧ strip m = strip L)
+    (hout : dv.out [] = []) (stripPrompt : Bool) (ops : List COp)
+    (hg : ∀ i, COp.cmd i ∈ ops → GoodCmd P dv i)
+    (w : Wire) (hw : ∀ x ∈ w.avail, isHws x = true) (hheld : w.held = []) (n : Nat) :
+    ∃ rs w' n', runOps cfg (decOnWrite dv D) stripPrompt ops (w, ([], n)) = some (rs, (w', ([], n'))) ∧
+      rs = ops.map (expectedOp cfg dv stripPrompt) ∧
+      w'.writes = w.writes ++ (ops.map (opWrites cfg.ret)).flatten := by
+  obtain ⟨rs, w', _, n', h1, h2, h3, _, _⟩ :=
+    mixed_session_in_step_dec hf D hD hfirst hout stripPrompt ops hg w w.avail n (dec_of_hws w hheld hw) hw
+  exact ⟨rs, w', n', h1, h2, h3⟩
+
 /-! non-vacuity: a decoration that puts an SGR sequence in front of every even burst and CR + ESC 7 behind it,
     the example pattern / device / command of C01.lean (output longer than the window), arbitrary cuts — the
     read boundaries may fall anywhere inside the sequences -/
@@ -105,6 +122,15 @@ example (cuts : List Nat) :
     (by intro i hi; simp at hi; subst hi; exact exGood) { avail := [32], cuts := cuts }
     (by intro x hx; simp at hx; subst hx; decide) rfl 0
   ⟨rs, w', h1, h2⟩
+
+example (cuts : List Nat) :
+    ∃ rs w' n', runOps exCfg (decOnWrite exDev exD) true [COp.prompt, COp.cmd exCmd, COp.prompt]
+        ({ avail := [32], cuts := cuts }, ([], 0)) = some (rs, (w', ([], n'))) ∧
+      rs = [strip exPrompt, expected exCfg exDev true exCmd, strip exPrompt] :=
+  let ⟨rs, w', n', h1, h2, _⟩ := decorated_mixed_session_exact exFits exD exD_decorates exFirst (by rfl) true
+    [COp.prompt, COp.cmd exCmd, COp.prompt] (by intro i hi; simp at hi; subst hi; exact exGood)
+    { avail := [32], cuts := cuts } (by intro x hx; simp at hx; subst hx; decide) rfl 0
+  ⟨rs, w', n', h1, by simpa [expectedOp, exDev] using h2⟩
 
 /-- the decoration really is on the wire: the first burst of the example device's answer to the return -/
 example : (decOnWrite exDev exD (exCmd, 0) [NL]).2.take 6 = [ESC, 91, 48, 109, NL, 108] := by decide
